@@ -344,7 +344,7 @@ func initMiscIntrinsics() {
 				if !fr.decideValue(call(fr.i, fr, 0, less, []value{j, j - 1})) {
 					break
 				}
-				fr.i.journal = append(fr.i.journal, undoRec{addr: &xs[j], old: xs[j]}, undoRec{addr: &xs[j-1], old: xs[j-1]})
+				fr.i.jlog(undoRec{addr: &xs[j], old: xs[j]}, undoRec{addr: &xs[j-1], old: xs[j-1]})
 				xs[j], xs[j-1] = xs[j-1], xs[j]
 			}
 		}
@@ -361,7 +361,7 @@ func initMiscIntrinsics() {
 			}
 			sort.Strings(ss)
 			for i := range xs {
-				fr.i.journal = append(fr.i.journal, undoRec{addr: &xs[i], old: xs[i]})
+				fr.i.jlog(undoRec{addr: &xs[i], old: xs[i]})
 				xs[i] = ss[i]
 			}
 			return nil, true
@@ -371,7 +371,7 @@ func initMiscIntrinsics() {
 				if !fr.decideValue(boolValue(strLt(lift(xs[j]), lift(xs[j-1])))) {
 					break
 				}
-				fr.i.journal = append(fr.i.journal, undoRec{addr: &xs[j], old: xs[j]}, undoRec{addr: &xs[j-1], old: xs[j-1]})
+				fr.i.jlog(undoRec{addr: &xs[j], old: xs[j]}, undoRec{addr: &xs[j-1], old: xs[j-1]})
 				xs[j], xs[j-1] = xs[j-1], xs[j]
 			}
 		}
